@@ -1483,6 +1483,18 @@ class DynGraph(nx.Graph):
         # @todo: implement (page 8, Latapy)
         pass
 
+    def clear(self):
+        """Remove all nodes and interactions, together with the snapshot ids and the interaction stream."""
+        nx.Graph.clear(self)
+        self.time_to_edge = defaultdict(int)
+        self.snapshots = {}
+
+    def clear_edges(self):
+        """Remove all interactions (nodes are kept), together with the snapshot ids and the interaction stream."""
+        nx.Graph.clear_edges(self)
+        self.time_to_edge = defaultdict(int)
+        self.snapshots = {}
+
     @not_implemented()
     def remove_edge(self, u, v):
         pass
